@@ -2,8 +2,8 @@
   C05 — GLSL integer and bit-field functions return the specified exact result.
 
   The theorems live in the sub-modules (built in parallel):
-    Props/C05/Count.lean   bitCount, findLSB, findMSB            (8 element types each, bv_decide)
-    Props/C05/Field.lean   bitfieldReverse, bitfieldExtract, bitfieldInsert (8 types each, bv_decide; documented
+    Props/C05/Count.lean   bitCount, findLSB, findMSB            (8 element types each, bv_decide (config := { timeout := 180 }))
+    Props/C05/Field.lean   bitfieldReverse, bitfieldExtract, bitfieldInsert (8 types each, bv_decide (config := { timeout := 180 }); documented
                            domain of (offset, bits) as hypothesis) + "no shift by the full width on the domain"
     Props/C05/Carry.lean   uaddCarry, usubBorrow, umulExtended, imulExtended in ℕ / ℤ, scalar and vector forms;
                            the usubBorrow defect (negation + exact partial statement)
